@@ -27,6 +27,7 @@ ASSUMPTIONS = ["subscribers are async callables that raise inside the coroutine 
 REQUIRED_OBS = ["must_verdicts", "must_not_verdicts", "repeat_frames", "raising_subscribers",
                 "zone_to_ac_forwarding", "unsubscribed_silent", "double_subscription",
                 "after_reinit", "single_field_changes"]
+SOAK = True   # also judged by the whole-run monitors of the soak sessions (vf/soak.py)
 BUDGET = {"quick": 100, "thorough": 1500}
 
 
